@@ -14,6 +14,11 @@
   for the time part (hour, minute, second, microsecond are computed as the code does and recombined as CPython
   does); for the date part the Gregorian y/m/d ↔ ordinal round trip of both libraries is C01/C02 + stdlib
   (trusted base), so the model goes day number ↔ ordinal directly and `gregorian.year < 1` is `ordinal < 1`.
+
+  Arbitrary `tzinfo` objects (section "datetimes with an arbitrary tzinfo"): a conversion can observe of the
+  `tzinfo` only whether it is `None` and what `tzinfo.utcoffset(dt)` returns for this very `dt` (its `fold`
+  included) — `None` or a timedelta of any size and microsecond resolution (the code calls the tzinfo directly, so
+  CPython's own |offset| < 24 h check of `datetime.utcoffset()` is not applied).  `TzView` is that observation.
 -/
 import PyodaModel.OffsetTypes
 
@@ -211,7 +216,60 @@ def odtFromPy (x : PyDateTime) (off : Int) : R OffsetDateTime := do
   let o ← offFromPy t
   .ok (OffsetDateTime.ofLocal d nod o)
 
+/-! ### datetimes with an arbitrary tzinfo -/
+
+/-- what the conversions can observe of `dt.tzinfo` -/
+inductive TzView where
+  /-- `dt.tzinfo is None` -/
+  | naive
+  /-- a tzinfo whose `utcoffset(dt)` returns `None` (CPython calls such a datetime naive as well) -/
+  | noOffset
+  /-- `dt.tzinfo.utcoffset(dt)` returns this timedelta (for the `fold` of `dt`) -/
+  | offset (t : PyTimedelta)
+  deriving DecidableEq, Repr, Inhabited
+
+/-- `Instant.from_aware_datetime(dt)`: `tzinfo is None` is refused with `ValueError`; `_to_ticks(None)` raises
+    `TypeError`; otherwise local ticks minus offset ticks after the BCL epoch, any offset. -/
+def instFromAware (x : PyDateTime) : TzView → R Instant
+  | .naive => .error .valueError
+  | .noOffset => .error .typeError
+  | .offset t => Instant.plusTicks bclEpoch (toTicksDt x - toTicksTd t)
+
+/-- `OffsetDateTime.from_aware_datetime(dt)`: no tzinfo or a non-timedelta utcoffset is a `ValueError`; the local
+    part is converted first; an offset `Offset` cannot represent — a fraction of a second, or beyond ±18 h — is a
+    `ValueError` (INTENDED behaviour for the fraction: the pinned code lets `Offset.from_timedelta` truncate it
+    silently, so the result denotes another instant than `dt`; finding `odt-from-subsecond-offset-truncated`). -/
+def odtFromAware (x : PyDateTime) : TzView → R OffsetDateTime
+  | .naive => .error .valueError
+  | .noOffset => .error .valueError
+  | .offset t => do
+    let (d, nod) ← ldtFromPy x isoCal
+    if t.micros ≠ 0 then .error .valueError
+    else do
+      let o ← offFromPy t
+      .ok (OffsetDateTime.ofLocal d nod o)
+
+/-- `LocalDateTime.from_naive_datetime(dt, calendar)`: any tzinfo at all (even one without an offset) is refused. -/
+def ldtFromAny (x : PyDateTime) (tz : TzView) (c : Cal) : R (Date × Int) :=
+  match tz with
+  | .naive => ldtFromPy x c
+  | _ => .error .valueError
+
+/-- `LocalTime.from_time(t)` reads hour/minute/second/microsecond only: `t.tzinfo` and `t.fold` are not looked at. -/
+def timeFromAny (us : Int) (_tz : TzView) (_fold : Int) : R Int := timeFromPy us
+
 /-! ### line protocol -/
+
+/-- `k d s u`: k = 0 no tzinfo, 1 utcoffset() is None, 2 the timedelta (d, s, u) -/
+def mkTz : List Int → Option TzView
+  | [0, _, _, _] => some .naive
+  | [1, _, _, _] => some .noOffset
+  | [2, d, s, u] => some (.offset ⟨d, s, u⟩)
+  | _ => none
+
+/-- a test tzinfo whose utcoffset depends on `dt.fold`: the view for fold 0, the view for fold 1 -/
+def pickTz (fold : Int) (a : List Int) : Option TzView :=
+  if fold = 0 then mkTz (a.take 4) else if fold = 1 then mkTz ((a.drop 4).take 4) else none
 
 def showTd : R PyTimedelta → String := showR (fun t => showInts [t.days, t.seconds, t.micros])
 def showDt : R PyDateTime → String := showR (fun x => showInts [x.ord, x.us])
@@ -236,6 +294,22 @@ def handleInts (op : String) (a : List Int) : Option String :=
   | "br.dur.from", [d, s, u] => some (Elapsed.showDur (durFromPy ⟨d, s, u⟩))
   | "br.off.to", [s] => some (showTd (offToPy ⟨s⟩))
   | "br.off.from", [d, s, u] => some (Elapsed.showOff (offFromPy ⟨d, s, u⟩))
+  | "br.inst.aware", o :: us :: fold :: tzs =>
+      if tzs.length ≠ 8 then none else do
+        let tz ← pickTz fold tzs
+        some (Elapsed.showInst (instFromAware ⟨o, us⟩ tz))
+  | "br.odt.aware", o :: us :: fold :: tzs =>
+      if tzs.length ≠ 8 then none else do
+        let tz ← pickTz fold tzs
+        some (OffsetTypes.showOdt (odtFromAware ⟨o, us⟩ tz))
+  | "br.ldt.aware", o :: us :: fold :: ord :: mn :: mx :: tzs =>
+      if tzs.length ≠ 8 then none else do
+        let tz ← pickTz fold tzs
+        some (showR (fun (p : Date × Int) => showInts [p.1.cal.ord, p.1.days, p.2]) (ldtFromAny ⟨o, us⟩ tz ⟨ord, mn, mx⟩))
+  | "br.time.aware", us :: fold :: tzs =>
+      if tzs.length ≠ 8 then none else do
+        let tz ← pickTz fold tzs
+        some (showI (timeFromAny us tz fold))
   | "br.ticks.dt", [o, us] => some (toString (toTicksDt ⟨o, us⟩))
   | "br.ticks.td", [d, s, u] => some (toString (toTicksTd ⟨d, s, u⟩))
   | _, _ => none
